@@ -27,12 +27,12 @@ from envlib import Adapter, Config, diff_json, tree_index
 class A(Adapter):
     name = "rubiks_cube"
     lean = "rubiks_cube"
-    serves = {"C07", "C08", "C09", "C10", "C11", "C12", "C17"}
+    serves = {"C01", "C07", "C08", "C09", "C10", "C11", "C12", "C17"}
     has_mask = False
     terminate_on_invalid = False
     max_steps = 30
     episode_cap = 260
-    ops = ("state", "step", "judge", "instance", "play")
+    ops = ("state", "step", "judge", "instance", "play", "bounds")
     state_fields = ["cube", "step_count"]
 
     def configs(self, tier):
